@@ -64,6 +64,8 @@ impl CodeStatement for Statement {
             + ParallelMoves<Code, Temporary>
             + Utils<Temporary>,
     {
+        #[cfg(scc_verif)]
+        instructions.push(Backend::comment(verif_marker(&self, &context)));
         match self {
             Statement::Substitute(substitute) => {
                 substitute.code_statement::<Backend, _, _, _>(types, context, instructions);
@@ -104,4 +106,37 @@ impl CodeStatement for Statement {
             }
         }
     }
+}
+
+/// Verification hook: statement-boundary marker carrying the statement kind and the environment
+/// (variable ids and chiralities, in order) the backend believes in at this point.
+#[cfg(scc_verif)]
+fn verif_marker(statement: &Statement, context: &TypingContext) -> String {
+    use axcut::syntax::Chirality;
+    let kind = match statement {
+        Statement::Substitute(_) => "substitute",
+        Statement::Call(_) => "call",
+        Statement::Let(_) => "let",
+        Statement::Switch(_) => "switch",
+        Statement::Create(_) => "create",
+        Statement::Invoke(_) => "invoke",
+        Statement::Literal(_) => "lit",
+        Statement::Op(_) => "op",
+        Statement::PrintI64(_) => "print",
+        Statement::IfC(_) => "ifc",
+        Statement::Exit(_) => "exit",
+    };
+    let bindings: Vec<String> = context
+        .bindings
+        .iter()
+        .map(|binding| {
+            let chi = match binding.chi {
+                Chirality::Prd => "prd",
+                Chirality::Cns => "cns",
+                Chirality::Ext => "ext",
+            };
+            format!("{}:{}", binding.var.id, chi)
+        })
+        .collect();
+    format!("@mark {kind} [{}]", bindings.join(","))
 }
